@@ -44,7 +44,10 @@ TECHNIQUE = ('stateful history generation + schedule exploration under a '
 ASSUMPTIONS = ['yield points at I/O, lock, queue, thread start/join']
 
 KINDS = ['refuse', 'silent', 'play_disconnect', 'login_disconnect',
-         'close_mid', 'garbage']
+         'close_mid', 'garbage',
+         # the same with a set-compression step first (per-connection state
+         # that must not survive into the next connection of the object)
+         'silent_z', 'play_disconnect_z', 'close_mid_z', 'garbage_z']
 STATUS_JSON = json.dumps({'version': {'name': 'x', 'protocol': 757},
                           'description': 'x'})
 
@@ -53,6 +56,16 @@ def make_server(kind):
     if kind == 'refuse':
         return 'refuse'
     base = {'version': 757, 'status': {'reply': STATUS_JSON}}
+    z = [('compress', 64)] if kind.endswith('_z') else []
+    if z:
+        kind = kind[:-2]
+    srv = _make_server(kind, base)
+    if z:
+        srv.steps[:0] = z
+    return srv
+
+
+def _make_server(kind, base):
     if kind == 'silent':
         base.update(login=[('success',)], play={'bursts': [], 'end': 'silent'})
     elif kind == 'play_disconnect':
@@ -152,6 +165,23 @@ def run_history(case, schedule):
                                 ('handler', s0, world.next_seq(),
                                  type(e).__name__))
                 conn.register_exception_handler(on_exc)
+            elif behaviour == 'handler_reconnect_direct':
+                # connect() straight from the handler, without disconnect()
+                # (the failed thread is already interrupted;
+                # _handle_exception skips its own disconnect then)
+                def on_exc2(exc, info):
+                    if not did:
+                        did.append(1)
+                        s0 = world.next_seq()
+                        try:
+                            conn.connect()
+                            res['behaviour_calls'].append(
+                                ('handler', s0, world.next_seq(), None))
+                        except Exception as e:
+                            res['behaviour_calls'].append(
+                                ('handler', s0, world.next_seq(),
+                                 type(e).__name__))
+                conn.register_exception_handler(on_exc2)
 
             def net_alive():
                 return [s.name for s in sc.states
@@ -356,7 +386,7 @@ def check(ctx, case, schedule, r):
                        if x[1] == 'accepted' and x[0] < last_conn['exit']]
                 kind = r['made_accepted'][len(idx) - 1] \
                     if len(idx) - 1 < len(r['made_accepted']) else None
-                if kind == 'silent' and last_conn['op'] == 'connect':
+                if kind in ('silent', 'silent_z') and last_conn['op'] == 'connect':
                     ended = False
         if ended is True and c['err'] == 'InvalidState':
             # a successor thread from an earlier disconnect+connect was
@@ -384,6 +414,15 @@ def check(ctx, case, schedule, r):
             # is a violation
             ctx.fail('history', 'S2-reconnect-from-callback-failed', sub, b)
             return
+    # S5: every connection the object made spoke well-formed protocol from
+    # its first byte (no framing or cipher state left over from an earlier
+    # connection of the same object)
+    for li, link in enumerate(r['links']):
+        errs = getattr(link.script, 'errors', None)
+        if errs:
+            ctx.fail('history', 'S5-malformed-stream-on-later-connection',
+                     sub, {'link': li, 'errors': errs[:3]})
+            return
     # S5: the final connect succeeded
     fin_conn = [c for c in calls if c['thread'] == 'fin' and
                 c['op'] == 'connect']
@@ -399,7 +438,8 @@ def check(ctx, case, schedule, r):
                  if last_link else None, [('keep_alive', 3)])
         return
     nonclean = any(k in ('refuse', 'login_disconnect', 'close_mid',
-                         'garbage') for k in r['made'][:-1])
+                         'garbage', 'close_mid_z', 'garbage_z')
+                   for k in r['made'][:-1])
     if nonclean or r['preemptions'] >= 1:
         ctx.nt(repr(case), tuple(schedule))
     ctx.label('outcome_' + r['outcome'])
@@ -438,6 +478,11 @@ SMALL = [
      'servers': ['garbage', 'silent'], 'behaviour': 'handler_reconnect'},
     {'programs': [['connect', 'settle', 'connect', 'disconnect']],
      'servers': ['play_disconnect', 'silent']},
+    {'programs': [['connect', 'settle', 'disconnect']],
+     'servers': ['garbage_z', 'silent'],
+     'behaviour': 'handler_reconnect_direct'},
+    {'programs': [['connect', 'settle', 'status', 'settle', 'connect']],
+     'servers': ['play_disconnect_z', 'silent', 'silent']},
     {'programs': [['connect', 'settle', 'connect', 'settle', 'connect']],
      'servers': ['login_disconnect', 'close_mid', 'silent']},
     {'programs': [['connect', 'disconnect', 'connect', 'disconnect',
@@ -503,7 +548,8 @@ def case_strategy(maxcalls, fine):
                      st.lists(st.sampled_from(KINDS), max_size=8),
                      st.sampled_from([None, None, None,
                                       'listener_reconnect',
-                                      'handler_reconnect'])).map(build)
+                                      'handler_reconnect',
+                                      'handler_reconnect_direct'])).map(build)
 
 
 def t_random(ctx, n, maxcalls, fine):
